@@ -38,7 +38,7 @@ def required_cells(tier):
         req[f"{e}:cut"] = 2
         req[f"{e}:T=0"] = 1
         req[f"{e}:T>0"] = 1
-    req.update({"tebd:full": 3, "gibbs:full": 3, "pt:file-backed": 2, "tempo:shared-correlations-history": 1, "state:pure": 4,
+    req.update({"tebd:full": 3, "tebd:continued-from-exported-chain-state": 2, "gibbs:full": 3, "pt:file-backed": 2, "tempo:shared-correlations-history": 1, "state:pure": 4,
                 "state:rankdef": 4, "strong": 6,
                 "physical:Tempo.compute": 20, "physical:compute_dynamics": 20,
                 "physical:MeanFieldTempo.compute": 10,
@@ -240,11 +240,25 @@ def run_case(case):
                 cc.add_single_site_control(
                     scen.random_superop(rng, dims[site], kind), site, step,
                     post=bool(rng.random() < 0.5) and step < nsteps)
-        oqupy.PtTebd(oqupy.AugmentedMPS(rhos), chain, pts,
-                     oqupy.PtTebdParameters(dt=dt, epsrel=teps,
-                                            order=1 + i % 2),
-                     dynamics_sites=record, chain_control=cc).compute(
-                         nsteps, progress_type="silent")
+        tparams = oqupy.PtTebdParameters(dt=dt, epsrel=teps, order=1 + i % 2)
+        if (i // 6) % 2 == 1 and nsteps >= 2:
+            # the run is interrupted half way: the chain state is taken out
+            # (Gamma-Lambda form, correlated and mixed by then) and a new
+            # computation is started from it
+            k0 = nsteps // 2
+            first = oqupy.PtTebd(oqupy.AugmentedMPS(rhos), chain, pts,
+                                 tparams, dynamics_sites=record,
+                                 chain_control=cc)
+            first.compute(k0, progress_type="silent")
+            mps = first.get_augmented_mps()
+            oqupy.PtTebd(mps, chain, pts, tparams, dynamics_sites=record,
+                         chain_control=cc, start_step=k0).compute(
+                             nsteps, progress_type="silent")
+            cells.append("tebd:continued-from-exported-chain-state")
+        else:
+            oqupy.PtTebd(oqupy.AugmentedMPS(rhos), chain, pts, tparams,
+                         dynamics_sites=record, chain_control=cc).compute(
+                             nsteps, progress_type="silent")
     else:   # gibbs
         dd = int(rng.choice([2, 3]))
         dims_sig = dd
